@@ -8,7 +8,9 @@
 (* self._state.execute runs inside _run_task; the transition / interrupt action at the end of the  *)
 (* step run after the scope was left), Process.launch, Process.execute (re-entrant                 *)
 (* run_until_complete, nest_asyncio), Process.kill / pause / _do_pause / play,                     *)
-(* base/state_machine.py transition_to (exit hooks, entering hook, entered hook + listeners).      *)
+(* base/state_machine.py transition_to (exit hooks, entering hook, entered hook + listeners, and   *)
+(* for a terminal state the direct call of on_terminated), Process.on_terminated -> close() ->     *)
+(* on_close -> the callbacks registered with add_cleanup.                                          *)
 (*                                                                                                 *)
 (* contextvars + asyncio: a Task runs every one of its steps in ONE context, a copy of the context *)
 (* that was current when the task was created; ContextVar.set is visible in the current context    *)
@@ -19,6 +21,7 @@
 (* Python methods are operators over the state record returning the new record.  A clause guarded  *)
 (* by "F18" \in Fixes is the repaired behaviour, its ELSE branch the code as written; samples      *)
 (* taken where the as-written clause was exercised carry the deviation identifier "D18".           *)
+(* "F18c" / "D18c": the same pair for the user's own close() (UserClose).                          *)
 (*                                                                                                 *)
 (* Two loop disciplines (scenario field mode):                                                     *)
 (*   "any"  - the harness owns the loop (harness/vloop.py) and acts between any two callbacks,     *)
@@ -32,10 +35,12 @@ EXTENDS Naturals, Sequences, FiniteSets, TLC
 
 CONSTANTS
   Scens,       \* <<[name, mode, early, procs, nfut, soon]>>; one scenario per behaviour (chosen in Init)
-               \*   procs[i] = [role: "top" | "sub", steps: <<[ops: <<[op, arg]>>, end: "stop" | "cont" | "wait"]>>, ctl: SUBSET {"kill","pause"}]
+               \*   procs[i] = [role: "top" | "sub", steps: <<[ops: <<[op, arg]>>, end: "stop" | "cont" | "wait"]>>, ctl: SUBSET {"kill","pause","close"},
+               \*               cl: number of cleanup callbacks the process registers (add_cleanup) when it is constructed]
                \*   op (record [op, arg, x]): "aw" f (await external future f) | "launch" c | "nest" q (Q().execute())
                \*     | "soon" k (self.call_soon(cb); k=1: cb raises; x # 0: cb is a coroutine that awaits future x)
                \*     | "osoon" X (X.call_soon(cb) on ANOTHER process X, typically the one that launched / executes this one; x as above)
+               \*     | "addcl" (self.add_cleanup(cb): one more cleanup callback, registered from the step)
                \*     | "ofail" X (X.fail(exc, None)) | "okill" X (X.kill()) | "opause" X (X.pause()): control of another process from this step
                \*   soon: processes on which the environment calls call_soon once; early: futures may be completed before they are awaited
   Fixes,       \* repairs the implementation under test contains
@@ -87,7 +92,7 @@ NewTaskF(s, kind, p, arg, f) ==
       t == Len(s.tasks) + 1
   IN [s EXCEPT !.ctx   = Append(@, s.ctx[CurCtx(s)]),
                !.tasks = Append(@, [kind |-> kind, p |-> p, arg |-> arg, c |-> c, start |-> Get(s), done |-> FALSE,
-                                    f |-> f, at |-> "new"]),       \* f, at: the future a coroutine callback awaits / where it is
+                                    f |-> f, at |-> "new", exc |-> "-"]),   \* exc: the exception the task ends with; f, at: the future a coroutine callback awaits / where it is
                !.ready = Append(@, t),
                !.procs = IF kind = "proc" THEN [@ EXCEPT ![p].task = t] ELSE @]
 
@@ -119,16 +124,43 @@ Entered(s, p, new) ==
     [] new = "KILLED"   -> Hook(Hook(s, p, "on_killed"), p, "L_killed")
     [] new = "EXCEPTED" -> Hook(Hook(s, p, "on_excepted"), p, "L_excepted")
 
+\* Process.close(): nothing on a closed process; else on_close, which runs the callbacks registered with add_cleanup in
+\* the order of their registration (each is code of the process like a hook: it samples) and marks the process closed
+RECURSIVE Cleanups(_, _, _, _)
+Cleanups(s, p, k, dev) ==
+  IF k > s.procs[p].ncl THEN s ELSE Cleanups(Sample(s, "cleanup" \o ToString(k), p, dev), p, k + 1, dev)
+
+CloseW(s, p, dev) ==
+  IF s.procs[p].closed THEN s
+  ELSE [Cleanups(Sample(s, "on_close", p, dev), p, 1, dev) EXCEPT !.procs[p].closed = TRUE, !.procs[p].ncl = 0]
+
+\* close() reached from on_terminated: inside whatever scope the transition runs in
+CloseProc(s, p) == CloseW(s, p, IF InScope THEN "-" ELSE "D18")
+
+\* close() called by the user on a live process (from outside, or from another process's step).  As written it is a plain
+\* call: on_close and the cleanup callbacks run in the CALLER's scope (deviation "D18c"); "F18c" \in Fixes: inside the
+\* scope of the process, like the hooks of kill() / pause() / play().  The process keeps its own lifecycle hooks and its
+\* listeners, a step in flight goes on (with the transition at its end); the next step() raises ClosedError.
+UserClose(s, p) ==
+  LET s1 == [s EXCEPT !.kctl[p] = @ \ {"close"}]
+  IN IF "F18c" \in Fixes THEN Pop(CloseW(Push(s1, p), p, "-"), p) ELSE CloseW(s1, p, "D18c")
+
+\* the last hook of a transition into a terminal state: StateMachine.transition_to calls on_terminated directly (it is
+\* not a state event); Process.on_terminated closes the process.  An override samples on entry and after super() returned
+OnTerminated(s, p) == Hook(CloseProc(Hook(s, p, "on_terminated"), p), p, "on_terminated.1")
+
 Trans(s, p, new) ==
   LET s1 == Entering(ExitHooks(s, p), p, new)
       \* on_finish / on_kill / on_except resolve the process future: its try_killing done-callback is scheduled (a handle
       \* without user code, "noise", written 0 in the ready queue)
       s2 == IF new \in Terminal THEN [s1 EXCEPT !.ready = Append(@, None)] ELSE s1
       s3 == [s2 EXCEPT !.procs[p].st = new, !.procs[p].wf = IF new = "WAITING" THEN "pending" ELSE "none"]
-  IN Entered(s3, p, new)
+      s4 == Entered(s3, p, new)
+  IN IF new \in Terminal THEN OnTerminated(s4, p) ELSE s4
 
 \* as written: StateMachine.transition_to, called after _run_task left the scope or from a control call.
-\* F18: Process.transition_to = with self._process_scope(): super().transition_to(...)
+\* F18: Process.transition_to = with self._process_scope(): super().transition_to(...)  - the whole transition, with
+\* on_terminated / close() / on_close / the cleanup callbacks of a terminal one
 TransitionTo(s, p, new) == Scoped(s, p, LAMBDA x : Trans(x, p, new))
 
 \* Process._do_pause(state_msg, next_state)
@@ -225,6 +257,7 @@ Go(s, p) ==
   LET P == s.procs[p] IN
   CASE P.at \in {"new", "top"} ->                                  \* while not self.has_terminated(): await self.step()
          IF P.st \in Terminal THEN [s EXCEPT !.procs[p].at = "end"]
+         ELSE IF P.closed THEN [s EXCEPT !.procs[p].at = "end", !.tasks[P.task].exc = "ClosedError"]   \* @ensure_not_closed step()
          ELSE IF P.paused THEN [s EXCEPT !.procs[p].at = "pz"]      \* await self._paused
          ELSE LET s1 == Push([s EXCEPT !.procs[p].stepping = TRUE], p)          \* _run_task(self._state.execute)
               IN IF P.st = "CREATED" THEN Go(EndStep(s1, p, "RUNNING"), p)       \* Created.execute: no user code
@@ -241,11 +274,14 @@ Go(s, p) ==
          LET step == Prog(s, p)[P.si] IN
          IF P.oi > Len(step.ops) THEN Go(EndStep(s, p, NextLabel(step.end)), p)
          ELSE LET o == step.ops[P.oi] IN
+              IF P.closed /\ o.op \in {"launch", "addcl"}          \* @ensure_not_closed methods: not offered on a closed process
+              THEN Bad([s EXCEPT !.procs[p].at = "end"], "closed-op") ELSE
               (CASE o.op = "aw"     -> IF s.futs[o.arg] = "done" THEN Go(AfterOp(s, p), p)    \* no suspension on a done future
                                        ELSE [s EXCEPT !.procs[p].at = "aw"]
                  [] o.op = "launch" -> Go(AfterOp(Launch(s, o.arg), p), p)
                  [] o.op = "soon"   -> Go(AfterOp(NewTaskF(s, "cb", p, o.arg, o.x), p), p)   \* self.call_soon(cb)
                  [] o.op = "osoon"  -> Go(AfterOp(NewTaskF(s, "cb", o.arg, 0, o.x), p), p)   \* other.call_soon(cb), from p's step
+                 [] o.op = "addcl"  -> Go(AfterOp([s EXCEPT !.procs[p].ncl = @ + 1], p), p)       \* self.add_cleanup(cb)
                  [] o.op = "ofail"  -> Go(AfterOp(Fail(s, o.arg), p), p)                     \* other.fail(exc, None)
                  [] o.op = "okill"  -> Go(AfterOp(OtherCtl(s, o.arg, "kill"), p), p)         \* other.kill()
                  [] o.op = "opause" -> Go(AfterOp(OtherCtl(s, o.arg, "pause"), p), p)        \* other.pause()
@@ -318,10 +354,14 @@ CallSoon(s, p) == NewTask([s EXCEPT !.ksoon = @ \ {p}], "cb", p, 0)
 Ctl(s, p, kind) ==
   LET P == s.procs[p]
   IN /\ kind \in s.kctl[p] /\ P.st \in Live /\ P.intr = "none" /\ ~P.paused
+     /\ (kind = "pause" => ~P.closed)
      /\ ~(P.at = "wf" /\ P.wf # "pending")
      /\ P.at \in {"new", "aw", "wf", "nest"}
 CanComplete(s, f) == /\ s.futs[f] = "pending"
                      /\ (Sc(s).early \/ (\E p \in 1..Len(s.procs) : Awaiting(s, p, f)) \/ (\E t \in 1..Len(s.tasks) : CbAwaiting(s, t, f)))
+\* the user's own close(): on a live, not paused process between its steps or while it waits for something
+CanClose(s, p)    == LET P == s.procs[p] IN /\ "close" \in s.kctl[p] /\ P.st \in Live /\ ~P.closed /\ P.intr = "none" /\ ~P.paused
+                                            /\ P.at \in {"new", "aw", "wf"} /\ Mode(s) = "any"
 CanPlay(s, p)     == s.procs[p].paused
 CanResume(s, p)   == LET P == s.procs[p] IN P.st = "WAITING" /\ P.at = "wf" /\ P.wf = "pending" /\ P.intr = "none" /\ ~P.paused
 CanSoon(s, p)     == p \in s.ksoon /\ s.procs[p].st # "NONE"
@@ -337,7 +377,7 @@ StartTop(s, i) ==
   ELSE StartTop(s, i + 1)
 
 Proc0 == [st |-> "NONE", at |-> "new", si |-> 1, oi |-> 1, stepping |-> FALSE, intr |-> "none", paused |-> FALSE,
-          wf |-> "none", task |-> 0]
+          wf |-> "none", task |-> 0, closed |-> FALSE, ncl |-> 0]
 
 Init0(k) ==
   LET sc == Scens[k]
@@ -348,7 +388,7 @@ Init0(k) ==
                        [set |-> FALSE, val |-> <<>>]>>,              \* 2: the observer's / driver's task context (a copy of 1)
              cur |-> <<1>>,
              tasks |-> <<>>, ready |-> <<>>,
-             procs |-> [i \in 1..n |-> Proc0],
+             procs |-> [i \in 1..n |-> [Proc0 EXCEPT !.ncl = sc.procs[i].cl]],
              futs |-> [f \in 1..sc.nfut |-> "pending"],
              lv |-> <<>>, drv |-> 0,
              kctl |-> [i \in 1..n |-> sc.procs[i].ctl], ksoon |-> sc.soon,
@@ -359,7 +399,7 @@ Init0(k) ==
      ELSE \* the driver task is created last; the outermost run_until_complete starts its first batch
           LET t == Len(s1.tasks) + 1
               s2 == [s1 EXCEPT !.tasks = Append(@, [kind |-> "drv", p |-> 0, arg |-> 0, c |-> 2, start |-> <<>>, done |-> FALSE,
-                                                      f |-> 0, at |-> "new"]),
+                                                      f |-> 0, at |-> "new", exc |-> "-"]),
                                !.ready = Append(@, t), !.drv = t]
           IN [s2 EXCEPT !.lv = <<[rem |-> Len(s2.ready), wait |-> 0, caller |-> 0, saved |-> <<>>]>>]
 
@@ -392,6 +432,7 @@ Procs == 1..Len(S.procs)
 EnvComplete(f) == CanComplete(S, f) /\ Env(LAMBDA s : Complete(s, f), "complete", f)
 EnvKill(p)     == Ctl(S, p, "kill") /\ Env(LAMBDA s : Kill(s, p), "kill", p)
 EnvPause(p)    == Ctl(S, p, "pause") /\ Env(LAMBDA s : Pause(s, p), "pause", p)
+EnvClose(p)    == CanClose(S, p) /\ Env(LAMBDA s : UserClose(s, p), "close", p)
 EnvPlay(p)     == CanPlay(S, p) /\ Env(LAMBDA s : Play(s, p), "play", p)
 EnvResume(p)   == CanResume(S, p) /\ Env(LAMBDA s : Resume(s, p), "resume", p)
 EnvCallSoon(p) == CanSoon(S, p) /\ Env(LAMBDA s : CallSoon(s, p), "callsoon", p)
@@ -399,7 +440,7 @@ EnvCallSoon(p) == CanSoon(S, p) /\ Env(LAMBDA s : CallSoon(s, p), "callsoon", p)
 Next ==
   \/ RunHandle
   \/ \E f \in 1..Len(S.futs) : EnvComplete(f)
-  \/ \E p \in Procs : EnvKill(p) \/ EnvPause(p) \/ EnvPlay(p) \/ EnvResume(p) \/ EnvCallSoon(p)
+  \/ \E p \in Procs : EnvKill(p) \/ EnvPause(p) \/ EnvClose(p) \/ EnvPlay(p) \/ EnvResume(p) \/ EnvCallSoon(p)
 
 Spec == Init /\ [][Next]_vars
 
@@ -429,5 +470,5 @@ WellFormed ==
   /\ \A i \in 1..Len(S.ready) : S.ready[i] \in 0..Len(S.tasks)
   /\ \A t \in 1..Len(S.tasks) : S.tasks[t].c \in 1..Len(S.ctx)
   /\ (Mode(S) = "idle" => Len(S.lv) >= 1 /\ Len(S.cur) = Len(S.lv))
-  /\ S.bad \cap {"fail-on-terminated", "unsupported-ctl"} = {}
+  /\ S.bad \cap {"fail-on-terminated", "unsupported-ctl", "closed-op"} = {}
 =============================================================================
